@@ -70,6 +70,11 @@ func main() {
 		var c caseT
 		r.LoadReplay(&c)
 		fmt.Printf("replay: %+v\n", c)
+		if c.Scenario == "concurrent" {
+			initRegistryForReplay()
+			phaseConcurrent(r)
+			r.Finish()
+		}
 		w := buildWorld("replay", c.Format, c.R, true)
 		defer w.Close()
 		switch c.Scenario {
@@ -167,6 +172,12 @@ func main() {
 		}
 	} else {
 		r.Capped("key relocation not run")
+	}
+	// 4. overlapping requests of different identities through one translator service (E1)
+	if !capped {
+		phaseConcurrent(r)
+	} else {
+		r.Capped("concurrent requests not run")
 	}
 	r.Set("keys_compared_pairwise", dist.n)
 	r.Class("distinctness:keys", int(int64(dist.n)))
